@@ -254,6 +254,28 @@ def hybrid_warmup_lengths(c, Nb, tune_freq):
         c.eq(f'{n}:sampling_after_warmup_continues_the_chain', G.samples[n][-1], R.samples[n][-1])
 
 
+class ComponentwiseFlagsBlock(BlockSampler):
+    """a block kernel that, like CWMH, reports ONE ACCEPTANCE FLAG PER COMPONENT (here: a mixed vector - some components accepted, some not) while it moves
+    the block's value"""
+    def step(self):
+        super().step()
+        return np.array([1, 0] * len(self.current_point))[:len(self.current_point)]
+
+
+def hybrid_vector_flags(c, steps):
+    """the value a block has after its transitions is the block sampler's point, whatever the sampler returns as acceptance information (a scalar flag, or one
+    flag per component as the component-wise sampler does, some zero): the chain is the one the same kernel gives with scalar flags"""
+    names = ['a', 'b']; dims = {'a': 2, 'b': 1}
+    def make(cls):
+        J = StubJoint(c, dims); init = {n: c.vec(f'init_{n}', dims[n]) for n in names}
+        return HybridGibbs(J, {'a': cls(c, 'a', init['a']), 'b': BlockSampler(c, 'b', init['b'])}, num_sampling_steps={'a': steps, 'b': 1})
+    G = make(ComponentwiseFlagsBlock); G.sample(3); R = make(BlockSampler); R.sample(3)
+    for n in names:
+        c.holds(f'{n}:one_stored_state_per_sweep', len(G.samples[n]) == 3)
+        for k in range(min(3, len(G.samples[n]))): c.eq(f'{n}:stored[{k}]_is_the_state_after_sweep_{k}', G.samples[n][k], R.samples[n][k])
+    c.eq('a:current_value_is_the_block_samplers_point', G.current_samples['a'], G.samplers['a'].current_point)
+
+
 def hybrid_warmup_loop(c):
     """HybridGibbs.warmup, loop cut mechanically from the real method: ONE iteration at an arbitrary (symbolic) loop counter and tuning interval performs
     exactly one sweep, records exactly one state AFTER it, and tunes iff a full interval is complete - the induction step of `warmup(Nb) stores Nb
@@ -456,6 +478,8 @@ def jobs(tier):
     for Nb, tf in ((3, None), (5, 0.5), (7, 0.3), (10, 0.3), (6, 0.5), (25, None)):
         J.append(Job(f'HybridGibbs:warmup_of_any_length:Nb={Nb}:tune_freq={tf}', lambda c, Nb=Nb, tf=tf: hybrid_warmup_lengths(c, Nb, tf), 'Pbox',
                      HG + ['cuqi.experimental.mcmc._gibbs:HybridGibbs.warmup'], timeout=600))
+    for steps in (1, 2):
+        J.append(Job(f'HybridGibbs:block_sampler_reporting_one_acceptance_flag_per_component:steps={steps}', lambda c, st=steps: hybrid_vector_flags(c, st), 'Pbox', HG, timeout=600))
     J.append(Job('HybridGibbs:warmup_loop_contract', hybrid_warmup_loop, 'Pinf', ['cuqi.experimental.mcmc._gibbs:HybridGibbs.warmup'], timeout=600))
     J.append(Job('HybridGibbs:continuation_and_warmup', hybrid_continue, 'Pbox', HG + ['cuqi.experimental.mcmc._gibbs:HybridGibbs.sample', 'cuqi.experimental.mcmc._gibbs:HybridGibbs.warmup']))
     LG = ['cuqi.sampler._gibbs:Gibbs.step', 'cuqi.sampler._gibbs:Gibbs.sample', 'cuqi.sampler._gibbs:Gibbs._get_initial_points', 'cuqi.sampler._gibbs:Gibbs._store_samples', 'cuqi.sampler._gibbs:Gibbs._allocate_samples']
